@@ -24,4 +24,4 @@ For each variant k in (1, 2) deliver, in {wt}:
   - variant<k>.diff : `git diff` output against HEAD containing ONLY the change to files under xknx/ (apply-able with `git apply` on a clean checkout)
   - demo<k>.py      : a demonstration (pytest-style test file runnable with `/venv/bin/python -m pytest -q -p no:cacheprovider demo<k>.py`, or a plain script exiting non-zero on failure) that FAILS with variant k applied and PASSES on the unchanged tree. It should exercise the real library code (real classes/functions, asyncio where needed, mocks only at the network boundary), showing the property violation through observable behaviour.
   - a section in SEED_REPORT.md: which clause of the property it breaks and why, what it needs in order to manifest, the exact commands you ran and their results (demo on changed tree = fail, demo on clean tree = pass, full suite on changed tree = only the 2 pre-existing failures).
-You must actually run all of that yourself and only report what you observed. Work with one variant applied at a time (use `git stash` / `git checkout -- xknx` to switch); at the end leave the worktree's xknx/ directory CLEAN (no variant applied) with the four files and the report present (untracked). Do not commit anything. If after serious effort only one variant is possible, deliver one and say so.""")
+You must actually run all of that yourself and only report what you observed. Work with one variant applied at a time: save each variant as its diff file first, then switch with `git apply variant<k>.diff` / `git apply -R variant<k>.diff` / `git checkout -- xknx`. NEVER use `git stash` (the stash is shared with other worktrees of this repository that other people are using concurrently); at the end leave the worktree's xknx/ directory CLEAN (no variant applied) with the four files and the report present (untracked). Do not commit anything. If after serious effort only one variant is possible, deliver one and say so.""")
